@@ -139,12 +139,13 @@ def run_case(case, R):
     R.hit("price_checks")
     raw = np.atleast_1d(np.asarray(st.price(no_control_variates=True), dtype=float))
     want = Y2.mean(axis=0)
-    if not np.allclose(raw, want, rtol=1e-12, atol=1e-14):
+    ymax = float(np.max(np.abs(Y2))) if Y2.size else 0.0       # the mean of samples of both signs cancels: rounding is on the scale of the samples
+    if not np.allclose(raw, want, rtol=1e-12, atol=1e-14 + 4e-15 * N * ymax):
         R.violation("raw-price-not-mean", f"price(no_control_variates=True) = {raw.tolist()}, df*mean(notional*payoff) = {want.tolist()}", wit)
     R.hit("stddev_checks")
     err = np.atleast_1d(np.asarray(st.mc_stddev(no_control_variates=True), dtype=float))
     want_err = Y2.std(axis=0, ddof=1) / math.sqrt(N)
-    if not np.allclose(err, want_err, rtol=1e-10, atol=1e-14):
+    if not np.allclose(err, want_err, rtol=1e-10, atol=1e-14 + 4e-15 * N * ymax):
         dimk = "vector-payoff" if dim > 1 else "scalar-payoff"
         R.violation(f"mc-stddev-{dimk}", f"mc_stddev = {err.tolist()} for N = {N}, payoff dimension {dim}; std(ddof=1)/sqrt(N) = {want_err.tolist()}", wit)
     # ---- control variates -----------------------------------------------------------------------------------------------------------
@@ -157,14 +158,16 @@ def run_case(case, R):
             S = np.cov(Xc.T, Yc, bias=True)
             Sx = np.atleast_2d(S[:-1, :-1])
             Sxy = S[:-1, -1]
-            if np.min(np.abs(Sx)) < 1e-8 or np.linalg.cond(Sx) > 1e10:
+            cond = float(np.linalg.cond(Sx)) if np.min(np.abs(Sx)) >= 1e-8 else math.inf
+            if cond > 1e10 or N < len(cvs) + 2:
                 R.skip("degenerate-controls")
                 continue
             b = np.linalg.solve(Sx, Sxy)
             pX = np.array([np.atleast_1d(p)[c] if np.ndim(p) else p for p in prices], dtype=float)
             series = Yc - (Xc - pX[None, :]) @ b
             R.hit("control_variate_checks")
-            scale = abs(series.mean()) + np.std(Yc) + 1e-12
+            # rounding of the regression: eps * cond(Sigma_x) on the size of the adjustment b * (X - price)
+            scale = abs(series.mean()) + np.std(Yc) + 1e-12 + 1e-7 * cond * float(np.sum(np.abs(b) * np.max(np.abs(Xc - pX[None, :]), axis=0)))
             if not (abs(pr[c] - series.mean()) <= 1e-8 * scale):
                 kind = f"{case['cv_prices']}-prices-{len(cvs)}-controls"
                 R.violation(f"cv-price-not-regression-estimator-{kind}", f"component {c}: price with {len(cvs)} control(s) = {pr[c]!r}, "
